@@ -137,6 +137,10 @@ class CoordTaint:
         self.fn = fn
         self.env = {}
         self.in_node = in_node_class
+        # the search box arrives as the constructor parameter `domain` (and is handed on under that name)
+        for a in list(fn.args.args) + list(fn.args.kwonlyargs):
+            if a.arg == "domain":
+                self.env["domain"] = (2, None, "box")
         for _ in range(8):
             ch = False
             for n in ast.walk(fn):
